@@ -396,7 +396,51 @@ def extras():
     return [Entry("x", f"new{n}a", [Field("n", "1")]), String(f"new{n}b", "2"), ImplicitComment("new3")]
 
 
+class BlockBag:
+    """A user's own collection type (sized, iterable, container - not a sequence)."""
+
+    def __init__(self, items):
+        self._items = list(items)
+
+    def __len__(self):
+        return len(self._items)
+
+    def __iter__(self):
+        return iter(self._items)
+
+    def __contains__(self, x):
+        return any(x is i for i in self._items)
+
+
+class MappingEntry(Entry):
+    """A user's Entry subclass that also behaves like a mapping of its fields (sized, iterable over its field keys,
+    falsy when it has no fields): still ONE block."""
+
+    def __len__(self):
+        return len(self.fields)
+
+    def __iter__(self):
+        return iter([f.key for f in self.fields])
+
+    def __contains__(self, k):
+        return k in self.fields_dict
+
+
+def _mapping_entry(with_fields):
+    _N[0] += 1
+    return MappingEntry("x", f"new{_N[0]}m", [Field("n", "1"), Field("o", "2")] if with_fields else [])
+
+
 RESULTS = {
+    "dict.values()": (lambda b: {1: b, 2: extras()[0]}.values(), 2),
+    "{} (empty dict)": (lambda b: {}, 0),
+    "frozenset()": (lambda b: frozenset(), 0),
+    "user collection [b,c]": (lambda b: BlockBag([b, extras()[1]]), 2),
+    "user collection []": (lambda b: BlockBag([]), 0),
+    "deque[b,c]": (lambda b: __import__("collections").deque([b, extras()[0]]), 2),
+    "a block that is sized and iterable": (lambda b: _mapping_entry(True), 1),
+    "a block that is sized, iterable and empty": (lambda b: _mapping_entry(False), 1),
+    "user collection [b,42]": (lambda b: BlockBag([b, 42]), TypeError),
     "None": (lambda b: None, 0),
     "[]": (lambda b: [], 0),
     "()": (lambda b: (), 0),
@@ -439,7 +483,7 @@ def expected_blocks(lib, kind, result):
             r = RESULTS[result][0](b)
             if r is None:
                 continue
-            out.extend([r] if not isinstance(r, (list, tuple)) else list(r))
+            out.extend([r] if isinstance(r, Entry.__mro__[1]) else list(r))  # (a Block is one block, whatever else it is)
         else:
             out.append(b)
     return [canon(b) for b in out]
@@ -536,7 +580,7 @@ def _rebuild(kind, result):
             r = RESULTS[result][0](b)
             if r is None:
                 continue
-            out.extend([r] if not isinstance(r, (list, tuple)) else list(r))
+            out.extend([r] if isinstance(r, Entry.__mro__[1]) else list(r))  # (a Block is one block, whatever else it is)
         else:
             out.append(b)
     return out
